@@ -1,6 +1,6 @@
 import vlib
 
-THEORY = ["theories/Mesh/Pure.v", "theories/Mesh/PureProofs.v", "theories/Mesh/Case.v"]
+THEORY = ["theories/Mesh/Pure.v", "theories/Mesh/PureLemmas.v", "theories/Mesh/PureProofs.v", "theories/Mesh/Case.v", "theories/Mesh/GenWf.v"]
 
 CFG = {
     "id": "C02", "harness": "c02",
@@ -22,7 +22,7 @@ CFG = {
     "technique": "Coq proof (per-operation closure lemmas, induction over histories) + vm_compute correspondence check + "
                  "certified boolean oracle on every implementation output",
     "design_ref": "DESIGN.md §3.2, §4 C02, §5 #2",
-    "n_quick": 600, "n_thorough": 10000,
+    "n_quick": 1000, "n_thorough": 10000,
     "rule": "operation cases as for C03 (random well-formed meshes of 6 topologies, 27 operations, histories of depth 1-4, "
             "composition laws) plus generator cases: every generator over its small integer parameters (0..12, incl. "
             "degenerate and negative values) and sampled larger ones; distinct by input; non-trivial = the operation or "
